@@ -655,16 +655,17 @@ def transform_journal(journal):
            account,
            {summary_func}(position),
            {summary_func}(balance)
-        {where}
 
-    """.format(where=('WHERE account ~ "{}"'.format(journal.account)
-                      if journal.account
-                      else ''),
-               summary_func=journal.summary_func or ''))
+    """.format(summary_func=journal.summary_func or ''))
+
+    # The account pattern enters as a constant, never as query text.
+    where_clause = (ast.Match(ast.Column('account'), ast.Constant(journal.account))
+                    if journal.account
+                    else None)
 
     return ast.Select(cooked_select.targets,
                       journal.from_clause,
-                      cooked_select.where_clause,
+                      where_clause,
                       None, None, None, None, None)
 
 
